@@ -110,8 +110,10 @@ class MemberDispatcher:
 
 def _illposed_refusal(disp, exc):
     """the member under construction belongs to a component that is not well-posed (its chain can close before a later element)
-    and the library refused it with a RuntimeError"""
-    if not isinstance(exc, RuntimeError) or disp.component is None or disp.audit is None:
+    and the library refused it with an exception"""
+    # (any exception of the library's own error paths counts: a chain end without a fitting end group makes numpy's choice
+    # refuse an empty option list with a ValueError)
+    if not isinstance(exc, Exception) or disp.component is None or disp.audit is None:
         return False
     from . import wellposed
 
